@@ -9,6 +9,7 @@ package main
 // in their integer argument; the dependency's 80-byte header codec (via the token model).
 
 import (
+	"go/constant"
 	"fmt"
 	"go/types"
 	"strings"
@@ -87,11 +88,20 @@ func init() {
 				return pureOpaque(fr, st, c, args, res)
 			}
 			// variadic args: a slice of a fresh [n]interface{} array filled just before the call
-			ints := fr.sprintfIntArgs(st, c.Args[1])
-			if ints == nil || len(ints) != 1 {
+			all := fr.sprintfIntArgs(st, c.Args[1])
+			var ints []string
+			suffix := ""
+			for _, a := range all {
+				if strings.HasPrefix(a, "const:") {
+					suffix += "!" + sanitize(a[6:])
+				} else {
+					ints = append(ints, a)
+				}
+			}
+			if all == nil || len(ints) != 1 {
 				return pureOpaque(fr, st, c, args, res)
 			}
-			name := "uf!sprintf!" + sanitize(strings.ReplaceAll(fc.Value.ExactString(), "\"", ""))
+			name := "uf!sprintf!" + sanitize(strings.ReplaceAll(fc.Value.ExactString(), "\"", "")) + suffix
 			f := v.smt.declareFun(name, []string{"Int"}, "Str")
 			ax := fmt.Sprintf("(forall ((a Int) (b Int)) (! (=> (= (%s a) (%s b)) (= a b)) :pattern ((%s a) (%s b))))", f, f, f, f)
 			if !v.smt.ufs[ax] {
@@ -291,10 +301,30 @@ func (fr *Frame) sprintfIntArgs(st *State, x ssa.Value) []string {
 				if !ok {
 					return nil
 				}
-				if b, ok := mi.X.Type().Underlying().(*types.Basic); !ok || b.Info()&types.IsInteger == 0 {
-					return nil
+				xt := mi.X.Type()
+				if cs, ok := mi.X.(*ssa.Const); ok && cs.Value != nil && cs.Value.Kind() == constant.String {
+					out[idx.Int64()] = "const:" + constant.StringVal(cs.Value) // part of the key's fixed text
+					continue
 				}
-				out[idx.Int64()] = fr.term(st, mi.X)
+				if b, ok := xt.Underlying().(*types.Basic); ok && b.Info()&types.IsInteger != 0 {
+					out[idx.Int64()] = fr.term(st, mi.X)
+					continue
+				}
+				// a hash (or pointer to one) printed with %s: the key depends on the hash value
+				ht := deref(xt)
+				if isOpaqueNamed(ht) {
+					if _, isArr := ht.Underlying().(*types.Array); isArr {
+						var hv string
+						if _, isPtr := xt.Underlying().(*types.Pointer); isPtr {
+							hv = fr.v.loadPtr(st, fr.val(mi.X), ht)
+						} else {
+							hv = fr.term(st, mi.X)
+						}
+						out[idx.Int64()] = fr.v.encVal(hv, ht)
+						continue
+					}
+				}
+				return nil
 			}
 		}
 	}
